@@ -19,6 +19,8 @@ pub struct TreeRt {
 	pub addr: HashMap<u64, u64>,
 	/// key index -> held reader lock
 	pub locks: HashMap<usize, Held>,
+	/// key index -> reader handle fetched earlier and kept unlocked
+	pub handles: HashMap<usize, ReaderArc>,
 }
 
 /// A held tree reader lock. Field order matters: the guard must be dropped before the Arc that
@@ -423,6 +425,7 @@ pub fn after_adopt(ex: &mut Exec) {
 	for r in ex.tree_rt.iter_mut() {
 		r.addr.clear();
 		r.locks.clear();
+		r.handles.clear();
 	}
 }
 
@@ -506,6 +509,20 @@ fn check_entry_count_inner(ex: &mut Exec, col: u8, append_only: bool) {
 
 // -- locks (C11, single-threaded deferral) ------------------------------------------------------
 
+pub fn tree_handle(ex: &mut Exec, c: u8, k: usize) {
+	if (c as usize) >= ex.col_kinds.len() || !ex.col_kinds[c as usize].is_tree() || !ex.has_db() {
+		return
+	}
+	if k >= ex.col_cfgs[c as usize].keys.len() {
+		return
+	}
+	let key = ex.col_cfgs[c as usize].keys[k].clone();
+	if let Ok(Some(t)) = ex.db().get_tree(c, &key) {
+		rt(ex, c).handles.insert(k, t);
+		ex.stats.probe("tree_handle_kept");
+	}
+}
+
 pub fn lock_tree(ex: &mut Exec, c: u8, k: usize) {
 	if !ex.col_kinds[c as usize].is_tree() || !ex.has_db() {
 		return
@@ -526,7 +543,15 @@ pub fn lock_tree(ex: &mut Exec, c: u8, k: usize) {
 	let Some((root, _)) = m.roots.get(&key).cloned() else { return };
 	let mut memo = HashMap::new();
 	let digest = model_digest(m, &root, &mut memo);
-	if let Ok(Some(t)) = ex.db().get_tree(c, &key) {
+	let kept = rt(ex, c).handles.remove(&k);
+	let fetched = match kept {
+		Some(t) => {
+			ex.stats.probe("tree_locked_through_kept_handle");
+			Ok(Some(t))
+		},
+		None => ex.db().get_tree(c, &key),
+	};
+	if let Ok(Some(t)) = fetched {
 		let g = t.read();
 		// The guard borrows the Arc we keep right next to it; dropped before the Arc.
 		let g: ReadGuard = unsafe { std::mem::transmute(g) };
@@ -597,6 +622,7 @@ pub fn release_all(ex: &mut Exec) {
 			h.guard = None;
 		}
 		r.locks.clear();
+		r.handles.clear();
 	}
 }
 
